@@ -39,7 +39,55 @@ fn gpus(n: u32) -> ResourceDescriptorItem {
     }
 }
 
+/// Workers 10.. exist only for generator version >= 1: ranges that do not start at 0 and a
+/// list with numeric labels that are not their positions.
+pub const N_WORKER_PALETTE_V1: usize = 13;
+
 pub fn worker_descriptor(p: usize) -> (ResourceDescriptor, &'static str, Option<Duration>) {
+    match p {
+        10 => {
+            return (
+                ResourceDescriptor::new(
+                    vec![cpus_range(4), ResourceDescriptorItem::range("gpus", 1, 4)],
+                    Default::default(),
+                ),
+                "a",
+                None,
+            );
+        }
+        11 => {
+            return (
+                ResourceDescriptor::new(
+                    vec![ResourceDescriptorItem::range("cpus", 2, 5)],
+                    Default::default(),
+                ),
+                "a",
+                None,
+            );
+        }
+        12 => {
+            return (
+                ResourceDescriptor::new(
+                    vec![
+                        cpus_range(4),
+                        ResourceDescriptorItem {
+                            name: "gpus".to_string(),
+                            kind: ResourceDescriptorKind::list(vec![
+                                "2".to_string(),
+                                "3".to_string(),
+                                "5".to_string(),
+                            ])
+                            .unwrap(),
+                        },
+                    ],
+                    Default::default(),
+                ),
+                "b",
+                None,
+            );
+        }
+        _ => {}
+    }
     let (items, group, limit) = match p % N_WORKER_PALETTE {
         0 => (vec![cpus_range(4)], "a", None),
         1 => (vec![cpus_range(2)], "a", None),
